@@ -40,7 +40,13 @@ class Parser(Emitter):
             error = str(formulaserror.from_message(e))
             formulaserror.forget_traceback(e)
 
-        if isinstance(result, formulaserror.XLError):
+        try:
+            is_error = isinstance(result, formulaserror.XLError)
+        except Exception:
+            # a host value may refuse to tell its class (a lazy proxy, a mock): it
+            # is not one of our error values then, and parse() still returns
+            is_error = False
+        if is_error:
             # the host may hand in error objects of its own: report a canonical code for them too
             error = str(formulaserror.from_message(result))
             result = None
